@@ -39,6 +39,37 @@ DELIM_SWAP = {"/": "\\", "?": "#", "#": "?", "&": ";", "=": ":", ":": "=", "@": 
               "|": "/", "http": "https", "https": "http", "www": "ww", "amp-": "amp", "index": "home", "*": "!", "!": "*"}
 
 
+def _stringy(e):
+    """the expression surely is a str (contains a str literal at the top of a + chain): `a += e` is then `a = a + e`"""
+    if isinstance(e, ast.Constant) and isinstance(e.value, str):
+        return True
+    if isinstance(e, ast.BinOp) and isinstance(e.op, ast.Add):
+        return _stringy(e.left) or _stringy(e.right)
+    return False
+
+
+def _rename_local(fn):
+    """renames one local of the function (assigned by a plain Name target, not a parameter, not global / nonlocal, not used in a nested scope)"""
+    params = {a.arg for a in fn.args.args + fn.args.kwonlyargs + fn.args.posonlyargs} | ({fn.args.vararg.arg} if fn.args.vararg else set()) | ({fn.args.kwarg.arg} if fn.args.kwarg else set())
+    nested = any(isinstance(x, (ast.FunctionDef, ast.Lambda, ast.ClassDef, ast.ListComp, ast.GeneratorExp, ast.DictComp, ast.SetComp)) for x in ast.walk(fn) if x is not fn)
+    banned = set()
+    for x in ast.walk(fn):
+        if isinstance(x, (ast.Global, ast.Nonlocal)):
+            banned |= set(x.names)
+    assigned = []
+    for x in ast.walk(fn):
+        if isinstance(x, ast.Name) and isinstance(x.ctx, ast.Store) and x.id not in params and x.id not in banned and x.id not in assigned and not x.id.startswith("_"):
+            assigned.append(x.id)
+    if nested or not assigned:
+        return False
+    old = assigned[len(assigned) // 2]
+    new = old + "_renamed"
+    for x in ast.walk(fn):
+        if isinstance(x, ast.Name) and x.id == old:
+            x.id = new
+    return True
+
+
 def mutants_of(tree):
     """yields (kind, lineno, before, mutate(tree_copy_node))  as (path, description, fn) where fn mutates the node found at `path` in a deep copy"""
     out = []
@@ -65,6 +96,17 @@ def mutants_of(tree):
         if isinstance(n, ast.Call) and len(n.args) == 2 and not n.keywords and os.environ.get("MUTC_OPS", "") == "2" \
                 and not any(isinstance(a, ast.Starred) for a in n.args):
             out.append((idx, "swap-args", ln, lambda m: m.args.reverse()))
+        if os.environ.get("MUTC_OPS", "") == "equiv":
+            # semantics-preserving rewrites: every check must still exit 0 (false-alarm campaign)
+            if isinstance(n, ast.If) and n.orelse and not (len(n.orelse) == 1 and isinstance(n.orelse[0], ast.If)):
+                out.append((idx, "eq:swap-branches", ln, "swap-branches"))
+            if isinstance(n, ast.AugAssign) and isinstance(n.op, ast.Add) and isinstance(n.target, ast.Name) and _stringy(n.value):
+                out.append((idx, "eq:augassign-to-assign", ln, "aug-to-assign"))
+            if isinstance(n, ast.Return) and n.value is not None and not isinstance(n.value, (ast.Name, ast.Constant)):
+                out.append((idx, "eq:return-via-temp", ln, "return-temp"))
+            if isinstance(n, ast.FunctionDef):
+                out.append((idx, "eq:rename-local", ln, "rename-local"))
+            continue
         if isinstance(n, ast.Break):
             out.append((idx, "break->continue", ln, "swap-break"))
         if isinstance(n, ast.Continue):
@@ -91,6 +133,17 @@ class Replacer(ast.NodeTransformer):
                 return ast.copy_location(ast.Break(), node)
             if self.how == "delete":
                 return ast.copy_location(ast.Pass(), node)
+            if self.how == "swap-branches":
+                return ast.copy_location(ast.If(test=ast.UnaryOp(op=ast.Not(), operand=node.test), body=node.orelse, orelse=node.body), node)
+            if self.how == "aug-to-assign":
+                return ast.copy_location(ast.Assign(targets=[ast.Name(id=node.target.id, ctx=ast.Store())],
+                                                    value=ast.BinOp(left=ast.Name(id=node.target.id, ctx=ast.Load()), op=ast.Add(), right=node.value)), node)
+            if self.how == "return-temp":
+                return [ast.copy_location(ast.Assign(targets=[ast.Name(id="returned_value", ctx=ast.Store())], value=node.value), node),
+                        ast.copy_location(ast.Return(value=ast.Name(id="returned_value", ctx=ast.Load())), node)]
+            if self.how == "rename-local":
+                _rename_local(node)
+                return node
         return node
 
 
@@ -104,7 +157,7 @@ def make_mutant(src, idx, how):
         after = ast.unparse(n)[:120]
     else:
         tree = Replacer(n, how).visit(tree)
-        after = {"replace-with-operand": "<operand>", "swap-break": "continue", "swap-continue": "break", "delete": "pass"}[how]
+        after = {"replace-with-operand": "<operand>", "swap-break": "continue", "swap-continue": "break", "delete": "pass"}.get(how, how)
     ast.fix_missing_locations(tree)
     return ast.unparse(tree) + "\n", before, after
 
